@@ -1330,24 +1330,24 @@ def check_C17(rep):
     rep.exhaustive = False
 
 
-def bytes_stage(rep):
+def bytes_stage(rep, tcfg="BytesTrace_C17.cfg", stage="c17-bytes"):
     exe = vlib.build_harness()
-    out = os.path.join(vlib.scratch(), "c17-bytes-trace-0.ndjson")
+    out = os.path.join(vlib.scratch(), stage + "-trace-0.ndjson")
     p = subprocess.run([exe, "bytes-run", "-out", out, "-seed", str(rep.seed), "-tier", rep.tier], capture_output=True, text=True)
     if p.returncode != 0:
         raise Inconclusive("bytes-run failed: " + p.stderr[-2000:])
     summ = vlib.last_json(p.stdout)
-    results = vlib.validate_traces([out], "BytesTrace.tla", "BytesTrace_C17.cfg", "c17-bytes-tv")
+    results = vlib.validate_traces([out], "BytesTrace.tla", tcfg, stage + "-tv")
 
     def describe(res, rec, trace, why):
         sig = "bytes:%s:%s" % (rec["ev"], why)
         return sig, "byte slice / byte array conversion: case len=%d est=%d T=%d rejected by %s" % (rec["len"], rec["est"], rec["T"], why), \
             {"engine": "bytes", "seed": rep.seed, "tier": rep.tier, "case": {k: rec[k] for k in ("len", "est", "T")}, "trace": trace}
 
-    nrec = handle_results(rep, results, "BytesTrace.tla", "BytesTrace_C17.cfg", describe, bytes_replay, "c17-bytes")
+    nrec = handle_results(rep, results, "BytesTrace.tla", tcfg, describe, bytes_replay, stage)
     rep.traces += nrec
     rep.evaluations += nrec
-    rep.stages["c17-bytes"] = {"cases": summ.get("cases", nrec)}
+    rep.stages[stage] = {"cases": summ.get("cases", nrec)}
 
 
 def bytes_replay(payload):
@@ -1754,6 +1754,7 @@ def check_C06(rep):
     rep.distinct.update(range(base, base + n))
     hist_stage(rep, "c06-array-streams", probe_cmd("array-run", "batch,copy", rep), "array", "ArrayTrace.tla", "ArrayTrace_C06.cfg", files, "edge",
                "bulk-built / copied container reports a size that disagrees with its content")
+    bytes_stage(rep, "BytesTrace_C06.cfg", "c06-bytes")
     rep.level = "model_checking"
 
 
